@@ -116,6 +116,9 @@ def post(lines, verdicts):
     for c, fl in (("n", 15000), ("l", 5000), ("s", 5000)):
         if comp[c] < fl:
             out.append(("diff", c, "diff tie not exercised: %d cases with compression %s, floor %d" % (comp[c], c, fl)))
+    # multi-byte UTF-8 statement texts / option values (the spec parser checks [string] / [long string] validity)
+    if sum(1 for ln in lines if "c5bcc3b3c582" in _case(ln) or "e697a5e69cac" in _case(ln)) < 500:
+        out.append(("diff", "utf8", "diff tie not exercised: fewer than 500 cases with multi-byte UTF-8 strings"))
     refused = sum(1 for ln in lines if "| err " in ln)
     if refused < 1000:
         out.append(("diff", "err", "diff tie not exercised: only %d refusals observed, floor 1000" % refused))
@@ -190,13 +193,14 @@ SPEC = {
     "min_cases": {"quick": 39000, "thorough": 290000},
     "trusted_base": [
         "Model/Request.v PART 2 (parse_frame / p_request) is the specification: transcribed by hand from the CQL binary protocol v4 document sections 2, 3, 4.1.1-4.1.8, 5 and ScyllaDB's result-metadata-id extension of EXECUTE",
-        "strings are modelled as their UTF-8 bytes (validity is a Rust type invariant, not modelled)",
+        "strings are their UTF-8 bytes; well-formedness (Cql.utf8_valid of Model/Cql.v = std::str::from_utf8 accepts) is a premise of the round-trip theorems (req_wf, a Rust type invariant) and is checked by the specification parser on [string] / [long string]",
+        "Model/Cql.v (C01's model) is imported for utf8_valid and for the value codec of the bridge theorems C09_values_are_C01 / C09_mini_ser_is_C01",
         "no hook: the runner uses only public items of scylla-cql / scylla (request structs, SerializedRequest::make / set_stream, decompress, SerializedValues::from_closure / from_serializable, RawBatchValues, RawBatchValuesAdapter, the built-in SerializeRow impls, SessionBuilder / Session)",
         "vh::mocknode captures the frames of the e2e kind (its own frame reader); harness/src/c09_e2e.rs states what a Session call is expected to ask for",
     ],
     "assumptions": [
         "codec_ok cd (LZ4/Snappy: decompress (compress b) = b) is an explicit premise of C09_compressed; the tie validates it on every compressed case by running the real decompress on the real compressed body",
-        "req_wf r (timestamp within i64, page size within i32: Rust type invariants) and mid_matches mid r (the parser is told whether the result-metadata-id extension is in use) are premises of C09_parse_encode / C09_compressed",
+        "req_wf r (timestamp within i64, page size within i32, statement texts and STARTUP strings well-formed UTF-8: Rust type invariants) and mid_matches mid r (the parser is told whether the result-metadata-id extension is in use) are premises of C09_parse_encode / C09_compressed",
         "bodies of 2^32 bytes or more are refused (BodyTooLong, /repo a9f519c): proved (C09_oversize, C09_body_too_long, C09_payload_too_long, C09_make_sizes, C09_lz4_sizes) and tied in every tier by the M cases (make() of never-touched zero bytes at 2^32-1 / 2^32 / 2^32+5, plain / LZ4 / Snappy, sizes only); the thorough tier adds a real 4 GiB batch body (L 4 40000000, reported as not-run with a WARNING when memory is short)",
         "the 2^31 boundaries of statement texts, the auth token and value cells are proved (C09_int_boundary) and tied by the G cases (2^31 and 2^31+1 on never-touched zero bytes in every tier; 2^31-1 accepted in the thorough tier); the paging-state 2^31 boundary is proved on the model only",
         "typed rows: the value codec is a parameter of the row theorems; the tie instantiates it with i32 / String / Vec<u8> / Option::None / Unset at int / text / blob columns",
